@@ -48,8 +48,23 @@ __probe("catchp.outer", function () { return cpOut(); });`},
 	{Name: "withc", Src: `
 var wcO = { w: 1, other: "o" }, wcGet, wcSet, wcOut, wcMark = "g";
 with (wcO) { wcGet = function () { return w; }; wcSet = function (x) { w = x; }; wcOut = function () { return wcMark + other; }; }
+var wsShared = { v: 1 };
+function wsMk(tag) { with (wsShared) { return function () { return tag + ":" + v; }; } }
+var wsF1 = wsMk("one"), wsF2 = wsMk("two");
+function wsA() { var who = "A"; with (wsShared) { return function () { return who + v; }; } }
+function wsB() { var who = "B"; with (wsShared) { return function () { return who + v; }; } }
+var wsFA = wsA(), wsFB = wsB();
+var wsO1 = { d: "d1" }, wsO2 = { d: "d2" };
+var wsDual = (function () {
+  var outer = "o", a, b;
+  with (wsO1) { a = function () { return outer + d; }; }
+  with (wsO2) { b = function () { return outer + d; }; }
+  return { a: a, b: b, set: function (x) { outer = x; } };
+})();
+function wsAll() { return [wsF1(), wsF2(), wsFA(), wsFB(), wsDual.a(), wsDual.b()].join(); }
 __probe("withc.get", function () { return wcGet(); });
-__probe("withc.outer", function () { return wcOut(); });`},
+__probe("withc.outer", function () { return wcOut(); });
+__probe("withc.shared", function () { return wsAll(); });`},
 
 	{Name: "nfe", Src: `
 var nfe = function fact(n) { return n <= 1 ? 1 : n * fact(n - 1); };
@@ -406,6 +421,24 @@ function kiRelate(x, y) {
 var kiPre = kiMake(), kiPre2 = kiMake();
 __probe("kinds.pre", function () { return kiRelate(kiPre, kiPre2); });`},
 
+	// withnest: one object backing two NESTED with environments, and the global object
+	// backing with environments (it already backs the global environment record) — its
+	// own Solo ingredient: a
+	// cloner that confuses the two records builds a cyclic scope chain, and resolving an
+	// identifier through it is a fatal Go stack overflow, reported as a worker crash).
+	{Name: "withnest", Solo: true, Src: `
+var wnShared = { v: 1 };
+var wnNest = (function () {
+  var lvl = "n0";
+  with (wnShared) {
+    var first = function () { return lvl + v; };
+    return (function () { var lvl = "n1"; with (wnShared) { return [first, function () { return lvl + v; }]; } })();
+  }
+})();
+var wnGlob = (function () { var loc = "L"; with (this) { return function () { return loc + typeof wnShared; }; } }).call(this);
+var wnGlob2; with (this) { wnGlob2 = function () { return typeof parseInt + typeof wnShared; }; }
+__probe("withnest.read", function () { return [wnNest[0](), wnNest[1](), wnGlob(), wnGlob2()].join(); });`},
+
 	// reentrant: bound functions with several bound arguments, called re-entrantly from a
 	// conversion of one of their own arguments (the bound-argument list of a copy is
 	// reallocated by the cloner, so capacity-dependent aliasing differs from the replay).
@@ -464,6 +497,7 @@ var mutations = []mutation{
 	{Name: "catchp.outer", Needs: "catchp", Src: `cpMark = "m"; cpOut()`},
 	{Name: "withc.set", Needs: "withc", Src: `wcSet(9); wcO.w`},
 	{Name: "withc.delete", Needs: "withc", Src: `delete wcO.w`},
+	{Name: "withc.sharedset", Needs: "withc", Src: `wsShared.v = 2; wsDual.set("p"); wsO1.d = "e1"; delete wsO2.d; wsAll()`},
 	{Name: "withc.outer", Needs: "withc", Src: `wcMark = "m"; wcO.other = "p"; wcOut()`},
 	{Name: "nfe.kill", Needs: "nfe", Src: `nfeKill()`},
 	{Name: "nfe.prop", Needs: "nfe", Src: `nfe.tag = 1; nfe = null; typeof nfe`},
@@ -525,6 +559,7 @@ var mutations = []mutation{
 	{Name: "evalacc.restore", Needs: "evalacc", Src: `Object.defineProperty(this, "eval", { value: eaE, writable: true, configurable: true }); (function () { var y = 2; return eval("y"); })()`},
 	{Name: "specials.restore", Needs: "specials", Src: `Function = spSaved.F; Array = spSaved.A; Object = spSaved.O; console = spSaved.c; [new Function("return 7")(), new Array(3).length, Object.keys({ a: 1 }).join(), typeof console.log].join()`},
 	{Name: "specials.use", Needs: "specials", Src: `Array.prototype.viaNew = 1; [Function(), Array(1, 2), [] instanceof Array, [] instanceof spSaved.A, new spSaved.F("a", "return a + 1")(1), typeof [].viaNew, Object.keys(Object).length > 5].join()`},
+	{Name: "withnest.set", Needs: "withnest", Src: `wnShared.v = 2; wnShared.lvl = "own"; var wnLate = 1; [wnNest[0](), wnNest[1](), wnGlob(), wnGlob2()].join()`},
 	{Name: "kinds.relate", Needs: "kinds", Src: `var kiPost = kiMake(), kiPost2 = kiMake(); [kiRelate(kiPre, kiPost), kiRelate(kiPost, kiPost2)].join(" || ")`},
 	{Name: "kinds.tag", Needs: "kinds", Src: `var kiT = kiMake(), kiOut = [], kiN = Object.getOwnPropertyNames(kiT); for (var kiI = 0; kiI < kiN.length; kiI++) { (function (o, p, n) { var po = Object.getPrototypeOf(o); if (po) { po["tag_" + n] = n; } kiOut[kiOut.length] = n + ":" + (po ? p["tag_" + n] : "-"); var d = Object.getOwnPropertyDescriptor(o, "caller"); if (d && d.get) { d.get.tagged = n; var e = Object.getOwnPropertyDescriptor(p, "caller"); kiOut[kiOut.length] = n + ".caller:" + (e && e.get ? e.get.tagged : "-"); } })(kiT[kiN[kiI]], kiPre[kiN[kiI]], kiN[kiI]); } kiOut.join()`},
 	{Name: "reentrant.call", Needs: "reentrant", Src: `[reG({ valueOf: function () { reG(0, 99); return 0; } }, 5), reF({ toString: function () { reF("x", "y"); return "t"; } }, "u"), reC({ toString: function () { reC("m", "n"); return "k"; } }, "w")].join("|")`},
